@@ -6,12 +6,13 @@ PATCH=$(realpath "$1"); shift
 M=/tmp/main_mut_$$
 mkdir -p $M && rsync -a --delete --exclude target --exclude .git /repo/ $M/ || exit 2
 ( cd $M && patch -p1 -s < "$PATCH" ) || { echo "patch does not apply"; rm -rf $M; exit 2; }
-cd /verif
+VROOT=$(cd "$(dirname "$0")/.." && pwd)
+cd $VROOT
 for c in "$@"; do
   out=$(PV_REPO=$M PV_EVIDENCE_DIR=/tmp/main_mut_ev_$$ timeout -k 10 2400 ./check $c --tier ${TIER:-quick} 2>&1); rc=$?
   echo "== $c exit=$rc $(echo "$out" | grep -c '^VIOLATION') violation line(s): $(echo "$out" | grep -m1 '^#' | cut -c1-160)"
 done
 tag=$(python3 -c "import hashlib,os;print(hashlib.sha1(os.path.realpath('$M').encode()).hexdigest()[:8])")
-rm -rf $M /tmp/main_mut_ev_$$ /verif/.cache/*_$tag
+rm -rf $M /tmp/main_mut_ev_$$ $VROOT/.cache/*_$tag
 # regenerate the tables from the real tree again
 python3 tools/extract.py --repo /repo --family all >/dev/null
